@@ -10,7 +10,10 @@ def replay(prop, ob_id, cfg, values, label):
     mod = importlib.import_module('obligations.%s' % prop.lower())
     ob = [cls() for cls in mod.OBLIGATIONS if cls.id == ob_id][0]
     ctx = Ctx('native', me=ModelEval(values=values))
-    ob.scenario(ctx, cfg)
+    try:
+        ob.scenario(ctx, cfg)
+    finally:
+        ctx.cleanup()
     print('obligation %s: %s' % (ob_id, ob.title))
     print('inputs: %s' % json.dumps(values, default=str))
     for o in ctx.obs:
